@@ -22,6 +22,47 @@ def mutate(rng, b):
     b[i] = rng.choice([0, 1, 2, 9, 10, 12, 0x7f, 0x80, 0xff, (b[i] + 1) & 255, (b[i] - 1) & 255, b[i] ^ 0x40, rng.randrange(256)])
     return bytes(b)
 
+def vi_bytes(v):
+    """varintConv.toBytes: length byte, then the zig-zag varint"""
+    u = ((v << 1) ^ (v >> 63)) & (2**64 - 1)
+    out = bytearray()
+    while True:
+        c = u & 0x7f; u >>= 7
+        if u: out.append(c | 0x80)
+        else: out.append(c); break
+    return bytes([len(out)]) + bytes(out)
+
+LENGTHS = [2**63 - 1, 2**63 - 2, 2**63 - 6, 2**63 - 11, 2**63 - 12, 2**63 - 13, 2**62, 2**32, 2**31, 2**31 - 1, 65536, 255, 1, 0, -1, -2**31, -2**63]
+
+def length_sites(b):
+    """positions of length prefixes: a tag of a sized object followed by a well-formed length-prefixed varint"""
+    return [i for i in range(len(b) - 2) if b[i] in (7, 8, 9, 10, 11, 12, 13, 14) and 1 <= b[i + 1] <= 10 and i + 2 + b[i + 1] <= len(b)]
+
+def splice_length(b, p, v):
+    return b[:p + 1] + vi_bytes(v) + b[p + 2 + b[p + 1]:]
+
+def read_vi(b, q):
+    n = b[q + 1]; u = 0
+    for k in range(n): u |= (b[q + 2 + k] & 0x7f) << (7 * k)
+    return (u >> 1) ^ -(u & 1), n
+
+def splice_consistent(b, p, v):
+    """the length prefix at p replaced by v; the length prefixes of the enclosing objects adjusted so that
+    only the innermost length lies"""
+    enclosing = []
+    for q in length_sites(b):
+        if q >= p: break
+        val, n = read_vi(b, q)
+        if val > 0 and q + 2 + n <= p < q + 2 + n + val: enclosing.append(q)
+    out = splice_length(b, p, v)
+    delta = len(out) - len(b)
+    for q in reversed(enclosing):
+        val, n = read_vi(b, q)
+        before = len(out)
+        out = out[:q + 1] + vi_bytes(val + delta) + out[q + 2 + n:]
+        delta += len(out) - before
+    return out
+
 def run(rep, br, proofs, rng, tier):
     nprog = 4 if tier == "quick" else 150
     nobj = 4000 if tier == "quick" else 80000
@@ -78,6 +119,14 @@ def run(rep, br, proofs, rng, tier):
     for i in range(nobj // 10):
         b = bytes(rng.randrange(256) for _ in range(rng.randrange(0, 24)))
         dcases.append(mk_case("r%d" % i, "dec", hexs(b)))
+    # every length prefix (outer and nested: array and map sizes, string lengths inside function objects, ...)
+    # replaced by boundary lengths, everything else left consistent
+    nl = 0
+    for b in sorted(set(bases), key=len)[:(80 if tier == "quick" else 2000)]:
+        for p in length_sites(b):
+            for v in LENGTHS:
+                dcases.append(mk_case("l%d" % nl, "dec", hexs(splice_length(b, p, v)))); nl += 1
+                if v > 2**31: dcases.append(mk_case("l%d" % nl, "dec", hexs(splice_consistent(b, p, v)))); nl += 1
     impl_d, _ = vlib.run_impl([c["line"] for c in dcases], timeout=2400)
     model_d, _ = vlib.run_model([c["line"] for c in dcases], timeout=2400)
     dis, inconclusive, classes = [], 0, {}
@@ -102,7 +151,7 @@ def run(rep, br, proofs, rng, tier):
                            "case": c["line"][:3000], "impl": str(c["impl"])[:500], "model": str(c["model"])[:500]}, found=False)
     rep.coverage.update({
         "evaluations": total + len(dcases), "distinct_nontrivial": err + sum(1 for c in dcases if c["impl"] == "(err)"),
-        "rule": "all truncations and single-byte corruptions (8 replacement values per position) of the version 2 and version 1 encodings of generated programs, decoded under recover with allocation measured; plus seeded single/double byte corruptions, truncations and arbitrary byte strings decoded as objects by implementation and model; non-trivial = the decoder rejected the input (the corruption reached a tag, length or count field)",
+        "rule": "all truncations and single-byte corruptions (8 replacement values per position) of the version 2 and version 1 encodings of generated programs, decoded under recover with allocation measured; every length prefix of object encodings (nested ones included) replaced by boundary lengths (around MaxInt64, 2^62, 2^32, 2^31, 65536, 0, negative), also with the lengths of the enclosing objects adjusted so that only the innermost length lies; plus seeded single/double byte corruptions, truncations and arbitrary byte strings decoded as objects by implementation and model; non-trivial = the decoder rejected the input (the corruption reached a tag, length or count field)",
         "samples": [pcases[0]["line"][:300], dcases[0]["line"], dcases[-1]["line"]],
         "bytecode_mutations": total, "bytecode_mutations_ok": ok, "bytecode_mutations_err": err,
         "v1_instruction_mutations": v1total, "v1_model_compared": len(v1model), "v1_model_disagreements": len(v1dis),
